@@ -368,8 +368,11 @@ class Gen:
             if ls:
                 l = r.choice(ls)
                 m = r.choice(["push", "push", "pop", "push_front", "pop_front", "insert", "remove"])
-                if ctx.get("loop_depth", 0) >= 2 and m in ("push", "push_front", "insert"):
-                    m = "pop"      # growing a list inside nested loops over it blows up exponentially
+                shared = l in scopes[0] or not any(l in sc for sc in scopes)   # a parameter (alias of the caller's list) or a global
+                if m in ("push", "push_front", "insert") and (ctx.get("loop_depth", 0) >= 2 or (ctx.get("in_fn") and shared)):
+                    # growing a list inside nested loops over it blows up exponentially; a function that grows a list of its
+                    # caller may be called from such loops
+                    m = "pop"
                 self.features.add("list." + m)
                 if m in ("push", "push_front"):
                     return [f"{l}.{m}({self.expr(T_INT, scopes, d)});"]
@@ -437,7 +440,12 @@ class Gen:
             body = self.block(scopes, d, tctx)
             pos = r.randrange(len(body) + 1)
             if r.random() < 0.7:
-                body = body[:pos] + [f"if {self.expr(T_BOOL, scopes, 0, pure=True)} {{ throw(\"err \" + ({self.pure_atom_int(scopes)}).to_string()); }}"] + body[pos:]
+                # (statements of the body may shadow outer names with other types: only a statement placed FIRST may use them)
+                if pos == 0:
+                    thr = f"if {self.expr(T_BOOL, scopes, 0, pure=True)} {{ throw(\"err \" + ({self.pure_atom_int(scopes)}).to_string()); }}"
+                else:
+                    thr = f"if {r.choice(['true', 'false', '(1 < 2)', '(3 == 4)', '!false'])} {{ throw(\"err \" + ({lit_int(r.choice(INT_POOL))}).to_string()); }}"
+                body = body[:pos] + [thr] + body[pos:]
                 self.features.add("throw-caught")
             cbody = [f"println(\"caught\", {ev}.message, {ev}.line, {ev}.column);"] + self.block(scopes, d, tctx, n=1)
             return ["try {"] + ind(body) + [f"}} catch {ev} {{"] + ind(cbody) + ["}"]
@@ -479,7 +487,7 @@ class Gen:
             r.shuffle(names)
             extracted = [(self.fresh("e"), sn) for sn in names[:r.randrange(1, len(names) + 1)]]
         scopes = [{**{e: (self.singletons[sn], True) for e, sn in extracted}, **{p: (t, True) for p, t in params}}]
-        ctx = {"break_ok": False, "in_try": False, "ret": ret, "may_throw_ok": may_throw}
+        ctx = {"break_ok": False, "in_try": False, "ret": ret, "may_throw_ok": may_throw, "in_fn": True}
         body = self.block(scopes, depth, ctx, n=r.randrange(1, 5))
         # block() pushed its own scope: for the tail expression only parameters and globals are visible
         sig = ", ".join([f"{e}: {sn}" for e, sn in extracted] + [f"{p}: {t}" for p, t in params])
